@@ -816,7 +816,7 @@ fn mode_async(cx: &mut Ctx) {
 // ============================================================================================
 
 fn judge_receiver_faulty(cx: &mut Ctx, mode: &str, cap: CapSpec, seq: &[Value], stream: &[u8], sizes: &[usize], outs: &[RecvOut], panic: &Option<String>, injected: &[(usize, String)], trace: &[(u16, u16)]) {
-    let replay_fn = || json!({"engine": "io_explore", "mode": mode, "side": "receiver", "shape": cx.s.id(), "cap": format!("{:?}", cap), "seq": seq.iter().map(|v| format!("{:?}", v)).collect::<Vec<_>>(), "stream": hex(stream), "choices": choices_json(trace)});
+    let replay_fn = || json!({"engine": "io_explore", "retain": retain_on(), "mode": mode, "side": "receiver", "shape": cx.s.id(), "cap": format!("{:?}", cap), "seq": seq.iter().map(|v| format!("{:?}", v)).collect::<Vec<_>>(), "stream": hex(stream), "choices": choices_json(trace)});
     if let Some(p) = panic {
         let key = if p.contains(HORIZON_MSG) { format!("{}/receiver/hang", mode) } else { format!("{}/receiver/panic/{}", mode, panic_site(p)) };
         cx.violate(key, format!("{} (faults {:?})", p, injected), replay_fn());
@@ -899,6 +899,22 @@ fn mode_fault(cx: &mut Ctx) {
             }
             account(cx, &st, Some(dev), stream.len(), "fault_receiver");
             cx.acc.count("executions_with_fault", faulted);
+            // ---- the same with the receiving side free to retain() a message once (a retained guard followed by
+            // a fault, a fault followed by a retained guard)
+            {
+                let mut n = 0u64;
+                let st = with_retain(|| {
+                    explore(Some(dev), max_execs, || run_receiver_blocking(s, cap, &stream, &fc, true), |t, r| {
+                        if t.iter().any(|(c, a)| *c == 1 && *a == 2) {
+                            let outs: Vec<RecvOut> = r.outs.iter().map(|o| o.0.clone()).collect();
+                            judge_receiver_faulty(cx, "fault", cap, seq, &stream, &sizes, &outs, &r.panic, &r.injected, t);
+                            n += 1;
+                        }
+                    })
+                });
+                account(cx, &st, Some(dev), stream.len(), "fault_receiver_retain");
+                cx.acc.count("executions_with_retain", n);
+            }
             // ---- async pair under faults (writer side and reader side separately)
             for (wf, rf, side) in [(fc.clone(), FaultCfg::off(), "async_writer"), (FaultCfg::off(), fc.clone(), "async_reader")] {
                 let mut ares: Vec<(Vec<(u16, u16)>, AsyncRun)> = vec![];
@@ -924,7 +940,7 @@ fn mode_fault(cx: &mut Ctx) {
 fn judge_async_faulty(cx: &mut Ctx, cap: CapSpec, seq: &[Value], stream: &[u8], sizes: &[usize], run: &AsyncRun, trace: &[(u16, u16)], side: &str) {
     let d = cx.d.clone();
     let blen = buf_len(cap, &d);
-    let replay_fn = || json!({"engine": "io_explore", "mode": "fault", "side": side, "shape": cx.s.id(), "cap": format!("{:?}", cap), "seq": seq.iter().map(|v| format!("{:?}", v)).collect::<Vec<_>>(), "choices": choices_json(trace)});
+    let replay_fn = || json!({"engine": "io_explore", "retain": retain_on(), "mode": "fault", "side": side, "shape": cx.s.id(), "cap": format!("{:?}", cap), "seq": seq.iter().map(|v| format!("{:?}", v)).collect::<Vec<_>>(), "choices": choices_json(trace)});
     if let Some(p) = &run.panic {
         let errored = run.sends.iter().any(|s| s.1 != SendOut::Ok);
         if p.contains(HORIZON_MSG) {
@@ -1125,7 +1141,7 @@ fn hostile_streams(d: &Desc, thorough: bool) -> Vec<(Vec<u8>, &'static str)> {
 fn judge_hostile(cx: &mut Ctx, variant: &str, cap: CapSpec, stream: &[u8], origin: &str, outs: &[RecvOut], panic: &Option<String>, end: Option<&ExecEnd>, trace: &[(u16, u16)]) {
     let d = cx.d.clone();
     let c = buf_len(cap, &d);
-    let replay_fn = || json!({"engine": "io_explore", "policy": CHUNK_POLICY.with(|c| c.get()), "mode": "hostile", "variant": variant, "shape": cx.s.id(), "cap": format!("{:?}", cap), "stream": hex(stream), "origin": origin, "choices": choices_json(trace)});
+    let replay_fn = || json!({"engine": "io_explore", "policy": CHUNK_POLICY.with(|c| c.get()), "retain": retain_on(), "mode": "hostile", "variant": variant, "shape": cx.s.id(), "cap": format!("{:?}", cap), "stream": hex(stream), "origin": origin, "choices": choices_json(trace)});
     if let Some(p) = panic {
         let key = if p.contains(HORIZON_MSG) { format!("hostile/{}/hang", variant) } else { format!("hostile/{}/panic/{}", variant, panic_site(p)) };
         cx.violate(key, format!("{} on stream {} ({}) cap {:?} after {} results", p, hex(stream), origin, cap, outs.len()), replay_fn());
@@ -1234,6 +1250,20 @@ fn mode_hostile(cx: &mut Ctx) {
                 cx.acc.distinct.insert(format!("{}:{}:{:?}", family(cx.s.id()), origin, outs.last().map(|o| std::mem::discriminant(o))));
             }
             account(cx, &st, bound, stream.len(), "hostile_blocking");
+            if stream.len() >= 2 {
+                let mut n = 0u64;
+                let st = with_retain(|| {
+                    explore(Some(dev), max_execs, || run_receiver_blocking(s, cap, stream, &FaultCfg::off(), true), |t, r| {
+                        if t.iter().any(|(c, a)| *c == 1 && *a == 2) {
+                            let outs: Vec<RecvOut> = r.outs.iter().map(|o| o.0.clone()).collect();
+                            judge_hostile(cx, "blocking", cap, stream, origin, &outs, &r.panic, None, t);
+                            n += 1;
+                        }
+                    })
+                });
+                account(cx, &st, Some(dev), stream.len(), "hostile_blocking_retain");
+                cx.acc.count("executions_with_retain", n);
+            }
             // async receiver (deviation bounded: the schedule space is larger)
             let mut ares: Vec<(Vec<(u16, u16)>, (Vec<RecvOut>, Option<String>, ExecEnd))> = vec![];
             let abound = if stream.len() <= 5 { None } else { Some(dev) };
